@@ -25,6 +25,7 @@ import (
 	"fmt"
 	"io"
 	"log"
+	"math"
 	"math/rand"
 	"net/http"
 	"net/url"
@@ -322,6 +323,13 @@ func (c *JSONClient) PostAndParseWithRetry(ctx context.Context, path string, req
 				// date string (RFC 7231 Section 7.1.3)
 				if retryAfter := httpRsp.Header.Get("Retry-After"); retryAfter != "" {
 					if seconds, err := strconv.Atoi(retryAfter); err == nil {
+						// Saturate instead of letting the conversion to nanoseconds wrap around.
+						const maxSeconds = int(math.MaxInt64 / int64(time.Second))
+						if seconds > maxSeconds {
+							seconds = maxSeconds
+						} else if seconds < -maxSeconds {
+							seconds = -maxSeconds
+						}
 						b := time.Duration(seconds) * time.Second
 						backoff = &b
 					} else if date, err := time.Parse(time.RFC1123, retryAfter); err == nil {
